@@ -210,3 +210,26 @@ PROPS["C18"] = dict(
     level_note="Which call reports the error, behaviour of a writer after it has returned Err (except no panic), CSV truncation and Avro OCF byte prefixes are not asserted.",
     technique="fault injection at every I/O call index and truncation at every byte length, with prefix/equality oracles on recorded sink contents",
 )
+
+PROPS["C16"] = dict(
+    quick=[st("quick", 90)],
+    thorough=[st("thorough", 900), st("tiny", 1800, variant="miri", hard_timeout=3600), st("quick", 600, variant="tsan-core"), st("quick", 600, variant="asan-core")],
+    floor=dict(quick=200, thorough=1000),
+    core=True,
+    rule="ownership histories over a pool of handles: 41 operations (clone, slice, advance, wrap into Boolean/Primitive/String arrays and ArrayData, into_mutable, into_vec, into_builder, unary_mut / try_unary_mut / binary_mut, BooleanBuffer &= |= ^=, shrink_to_fit, claim(pool), to_ffi / from_ffi with wrapped release callbacks, FFI_ArrowArrayStream export/import, send to another thread, drop) on buffers from standard allocations, Vec, bytes::Bytes and Buffer::from_custom_allocation over harness-owned regions whose owner counts releases and scribbles 0xDD; sections scen/parscen (scripted), seq (random histories of 5-60 ops, checked after every step), par (1-4 threads on shared clones, each history run twice); oracle: bytes visible through every live handle equal their creation snapshot, owner released exactly once and only after the last derived handle died, every FFI release callback (children and dictionary included) runs exactly once, recording MemoryPool used()==0 at quiescence and == capacity right after claim, imported == exported; distinct cross-thread operation orders are counted from a global sequence number; class = (section, op class, handle kind, owner kind, outcome)",
+    level="exploration",
+    level_text="Runtime history checking of buffer ownership: online assertions on hooked environments the harness supplies (owners, pool, FFI callbacks) plus an offline checker over the event log; the same workload under Miri (UB, data races, leaks), ThreadSanitizer and AddressSanitizer in the thorough tier.",
+    level_note="Whether an in-place operation succeeds or declines, which of len/capacity a mutable reservation tracks and promptness of release are not asserted. Sanitizer stages only see what the schedules produce.",
+    technique="history-based runtime monitoring with instrumented owners/pool/FFI callbacks; Miri, TSan and ASan on the same workload",
+)
+
+PROPS["C08"] = dict(
+    quick=[st("quick", 120, hard_timeout=900)],
+    thorough=[st("thorough", 1200, hard_timeout=5400)],
+    floor=dict(quick=200, thorough=1000),
+    rule="per valid base input (IPC file/stream, Flight messages, Parquet files over all codecs/encodings/page versions, Avro OCF and single-object, CSV, JSON, Variant) N structure-aware mutations (located flatbuffer table/vtable/vector fields, thrift compact-protocol footer/page-header/index fields, Avro framing and schema tokens, Variant headers/offsets, first bytes of every buffer/page; generic byte/bit flips, 32/64-bit LE integer and varint rewrites, truncation, block delete/duplicate/swap, cross-splices) through every reader entry point of the format; exhaustive position x value sweeps and all truncation lengths for small IPC and Variant inputs; oracle: no panic, Ok => every returned array/batch passes the independent validator and accessor exercise and matches the announced schema, peak heap <= 1 GiB and no single request > 8 GiB (counting allocator), CPU-time watchdog with a hang reported only after 3 isolated reproductions at 10x budget; class = (reader family, mutator class, outcome)",
+    level="exploration",
+    level_text="Hostile-input runtime monitoring of all safe readers in supervised worker processes (aborts and hangs attributed to the exact mutation and reader), with a counting allocator for the memory clause and a CPU-time watchdog for the bounded restatement of termination.",
+    level_note="'Memory unrelated to input size' is restated as an absolute cap (1 GiB peak / 8 GiB single request for inputs <= 1 MiB); 'does not loop forever' as 3 reproductions at 10x the CPU budget. Which error is returned and the unsafe skip-validation paths are not asserted.",
+    technique="structure-aware mutation of valid inputs under panic, allocation and CPU-time monitors with independent validation of every Ok result",
+)
